@@ -47,6 +47,45 @@ std::vector<Entry> parse_entries(const std::string& t) {
     return out;
 }
 
+// what the harness writes into leaked block number `number` (its allocation number), byte j: half of the blocks carry one
+// printable letter, the others every byte value
+uint8_t content_byte(unsigned number, int line, size_t j) { return (line & 1) ? (uint8_t)(0x41 + (number % 20)) : (uint8_t)(number * 131u + j * 29u + (j >> 3) * 7u); }
+
+// every dump line that is completely present must show the block's own bytes: the hex column byte for byte, the text
+// column the same bytes with '.' for everything outside ' '..'~'.  Returns "" or a description of the first difference.
+// maybe_cut: the report ran into its write limit somewhere; the last dump line of the body may then end anywhere (even on a
+// '|' that is one of the block's own bytes), so it is not judged.
+std::string check_dumps(const std::string& body, bool maybe_cut) {
+    size_t pos = 0; size_t last_line = std::string::npos;
+    if (maybe_cut) { size_t q = 0; while ((q = body.find("\n    ", q)) != std::string::npos) { last_line = q + 1; q += 5; } }
+    while ((pos = body.find("Alloc num (", pos)) != std::string::npos) {
+        unsigned number = (unsigned)strtoul(body.c_str() + pos + 11, nullptr, 10);
+        size_t lp = body.find(" and line: ", pos), c = body.find("> Content:\n", pos); pos += 5;
+        if (c == std::string::npos || lp == std::string::npos || lp > c) continue;
+        int line = (int)strtol(body.c_str() + lp + 11, nullptr, 10);
+        size_t q = c + 11, off = 0;
+        while (body.compare(q, 4, "    ") == 0) {
+            size_t nl = body.find('\n', q); if (nl == std::string::npos) break;               // cut inside the line
+            if (q == last_line) break;
+            std::string ln = body.substr(q, nl - q); q = nl + 1;
+            size_t colon = ln.find(": "), bar = ln.find('|');
+            if (colon == std::string::npos || bar == std::string::npos || ln.back() != '|' || bar + 1 > ln.size() - 1) break;   // not a complete dump line
+            if (strtoul(ln.c_str() + 4, nullptr, 16) != off) return sfmt("dump of alloc num %u: line offset %s, expected %04zx", number, ln.substr(4, colon - 4).c_str(), off);
+            std::vector<uint8_t> hex; { const char* h = ln.c_str() + colon + 2; const char* e = ln.c_str() + bar; while (h < e) { while (h < e && *h == ' ') h++; if (h >= e) break; char* stop; unsigned long v = strtoul(h, &stop, 16); if (stop == h) break; hex.push_back((uint8_t)v); h = stop; } }
+            std::string text = ln.substr(bar + 1, ln.size() - bar - 2);
+            if (hex.size() != text.size() || hex.empty() || hex.size() > 16) return sfmt("dump of alloc num %u at %04zx: %zu hex bytes, %zu text characters", number, off, hex.size(), text.size());
+            for (size_t j = 0; j < hex.size(); j++) {
+                uint8_t w = content_byte(number, line, off + j);
+                if (hex[j] != w) return sfmt("dump of alloc num %u shows byte %02x at offset %zu, the block holds %02x", number, hex[j], off + j, w);
+                char wt = (w < ' ' || w > '~') ? '.' : (char)w;
+                if (text[j] != wt) return sfmt("dump of alloc num %u shows character 0x%02x for byte %02x at offset %zu", number, (unsigned char)text[j], w, off + j);
+            }
+            off += hex.size();
+        }
+    }
+    return "";
+}
+
 std::string gen_file(Reader& r) {
     // lengths up to and beyond the 4096-byte report buffer itself
     uint32_t len = r.pick((const uint32_t[]){0, 1, 8, 20, 60, 120, 250, 400, 1000, 3600, 4090, 4096, 5000});
@@ -100,7 +139,8 @@ int run_case(Reader& r, bool& nontrivial, std::string& desc) {
             names.emplace_back(new std::string(longnames ? gen_file(r) : std::string("f.c")));
             char* p = det->allocMemory(g_alloc[kind], size, names.back()->c_str(), (size_t)line, kind == 2);
             if (!p) { cleanup(); return verif::fail("C14:alloc-null", "allocMemory returned NULL"); }
-            memset(p, 0x41 + (i % 20), size);
+            for (size_t j = 0; j < size; j++) p[j] = (char)content_byte(seq, line, j);
+            if (!(line & 1) && size) verif::cls("leak-with-arbitrary-bytes");
             live.push_back(Live{p, Entry{seq++, size, *names.back(), line, KIND[kind]}, kind});
         }
         desc += sfmt("leaks +%u (%zu live, %s names);", nleaks, live.size(), longnames ? "long" : "short");
@@ -130,6 +170,7 @@ int run_case(Reader& r, bool& nontrivial, std::string& desc) {
                     size_t have_lines = 0; { std::string body = t.substr(0, tp); size_t q = 0; while ((q = body.find("\n    ", q)) != std::string::npos) { size_t c = body.find(": ", q + 5); if (c != std::string::npos && c - (q + 5) == 4 && body.find_first_not_of("0123456789abcdef", q + 5) == c) have_lines++; q += 5; } }
                     if (have_lines < need_lines && !too_many) { cleanup(); return verif::fail("C14:report-dump-cut-silently", "the listed entries need %zu dump lines, %zu are present, and nothing says that the report was cut (text length %zu)", need_lines, have_lines, t.size()); }
                     if (have_lines < need_lines) verif::cls("report-cut-inside-a-dump");
+                    { std::string bad = check_dumps(t.substr(0, tp), too_many || have_lines < need_lines); if (!bad.empty()) { cleanup(); return verif::fail("C14:report-dump-content", "%s", bad.c_str()); } }
                     // the whole note, to its last line: the report reserves room for total, dropped-entries notice and note
                     bool note = t.find("Memory leak reports about malloc and free") != std::string::npos;
                     if (note && t.find("(#define malloc cpputest_malloc etc).\n") == std::string::npos) { cleanup(); return verif::fail("C14:report-note-truncated", "the closing note of the report is cut off (text length %zu)", t.size()); }
